@@ -8,8 +8,8 @@ strings are the *surface* renderings a user writes ("Tue, 15 Nov 2011 14:05:59",
 "Nov. 5, 2011"), the words literal, every digit symbolic; the reference time is symbolic.
 
 The written values are assumed valid *before* the call (the statement quantifies over real dates),
-which is also what keeps the path count small.  What is not covered here: autodetection (every
-locale loaded) - that stays with the stand-ins `front_canon_C01` / `front_en_abs`.
+which is also what keeps the path count small.  Autodetection (languages=None) is covered too: the
+loader yields the locales in priority order, English first, and stops at the first success.
 """
 from pyvc.cal import dim
 from pyvc.spec import And, Implies, Ite, Not, Or
@@ -95,6 +95,16 @@ class front_end_en_absolute:
                             if ap:
                                 c["ampm"] = ap
                             out.append(c)
+        # autodetection (languages=None): the locales are tried in the library's priority order,
+        # English first; one case per form and month/weekday rendering (quick: first rendering)
+        seen = set()
+        for c in list(out):
+            key = (c["form"], c.get("ampm")) if not thorough else (c["form"], c.get("ampm"),
+                                                                     c.get("month_text"))
+            if key in seen or (thorough and c["form"] in cls.SLOW and c.get("month_text") not in (None, "Nov", "January")):
+                continue
+            seen.add(key)
+            out.append(dict(c, languages="autodetect"))
         # the PREFER_* settings are irrelevant to complete dates
         for pd in PREFS:
             for pm in PREFS:
@@ -172,7 +182,7 @@ class front_end_en_absolute:
         parser._settings = st
         parser.try_previous_locales = False
         parser.use_given_order = False
-        parser.languages = ["en"]
+        parser.languages = None if case.get("languages") == "autodetect" else ["en"]
         parser.locales = None
         parser.region = None
         parser.detect_languages_function = None
